@@ -39,13 +39,15 @@ def tcidCheck : Bool := true
 def tcIdCheck : Bool := true
 def tcTypeCheck : Bool := true
 def tcNameCheck : Bool := true
+/-- the final sort of `concatToolCalls` is `sort.SliceStable` -/
+def tcSortStable : Bool := true
 
-def mkCfg (tbl : List (String × String)) (nilGuard kindFirst byKind nilRes r n t i ty nm : Bool) : Cfg :=
+def mkCfg (tbl : List (String × String)) (nilGuard kindFirst byKind nilRes r n t i ty nm stable : Bool) : Cfg :=
   { table := tableOf tbl, nilAbsent := nilGuard, guardKindFirst := kindFirst, recurseByKind := byKind,
     nilResultGuard := nilRes, roleCheck := r, nameCheck := n, tcidCheck := t,
-    tcIdCheck := i, tcTypeCheck := ty, tcNameCheck := nm }
+    tcIdCheck := i, tcTypeCheck := ty, tcNameCheck := nm, tcSortStable := stable }
 
 def cfg : Cfg := mkCfg concatFuncs nilGuard guardKindFirst recurseByKind nilResultGuard roleCheck nameCheck tcidCheck
-  tcIdCheck tcTypeCheck tcNameCheck
+  tcIdCheck tcTypeCheck tcNameCheck tcSortStable
 
 end EinoV.Expected.C14
